@@ -6,6 +6,7 @@
 //
 ///////////////////////////////////////////////////////////////////////////////
 #define CPPCMS_SOURCE
+#include <booster/verif_trace.h>
 #include "cgi_api.h"
 #include <cppcms/service.h>
 #include <cppcms/http_context.h>
@@ -56,6 +57,7 @@ context::context(booster::shared_ptr<impl::cgi::connection> conn) :
 	d.reset(new _data(*this));
 	d->response.reset(new http::response(*this));
 	skin(service().views_pool().default_skin());
+	BOOSTER_VERIF_EMIT("\"e\":\"CtxNew\",\"x\":%lu,\"c\":%lu",(unsigned long)((size_t)(this) & 0xFFFFFF),(unsigned long)((size_t)(conn_.get()) & 0xFFFFFF));
 }
 
 void context::set_holder(holder *p)
@@ -268,6 +270,7 @@ int context::on_content_progress(size_t n)
 
 void context::on_request_ready(bool error)
 {
+	BOOSTER_VERIF_EMIT("\"e\":\"Ready\",\"x\":%lu,\"err\":%s",(unsigned long)((size_t)(this) & 0xFFFFFF),error ? "true" : "false");
 	booster::shared_ptr<application_specific_pool> pool;
 	booster::intrusive_ptr<application> app;
 	pool.swap(d->pool);
@@ -309,6 +312,7 @@ namespace {
 
 void context::complete_response()
 {
+	BOOSTER_VERIF_EMIT("\"e\":\"Resp\",\"x\":%lu,\"kind\":\"sync\",\"reuse\":%s",(unsigned long)((size_t)(this) & 0xFFFFFF),conn_ && conn_->is_reuseable() ? "true" : "false");
 	response().finalize();
 	if(conn_->is_reuseable()) {
 		booster::shared_ptr<context> cont(new context(conn_));
@@ -348,6 +352,7 @@ void context::make_error_message(std::exception const &e)
 // static 
 void context::dispatch(booster::intrusive_ptr<application> const &app,std::string const &url,bool syncronous)
 {
+	BOOSTER_VERIF_EMIT("\"e\":\"Dispatch\",\"x\":%lu,\"sync\":%s",(unsigned long)((size_t)(app->get_context().get()) & 0xFFFFFF),syncronous ? "true" : "false");
 	try {
 		if(syncronous) {
 			app->response().io_mode(http::response::normal);
@@ -403,6 +408,7 @@ void context::async_flush_output(context::handler const &h)
 
 void context::async_complete_response()
 {
+	BOOSTER_VERIF_EMIT("\"e\":\"AsyncComplete\",\"x\":%lu",(unsigned long)((size_t)(this) & 0xFFFFFF));
 	response().finalize();
 	if(response().io_mode() == http::response::asynchronous || response().io_mode() == http::response::asynchronous_raw) {
 		ct_to_bool cb = { &context::try_restart, self() };
@@ -417,6 +423,7 @@ void context::async_complete_response()
 
 void context::try_restart(bool e)
 {
+	BOOSTER_VERIF_EMIT("\"e\":\"Resp\",\"x\":%lu,\"kind\":\"async\",\"err\":%s,\"reuse\":%s",(unsigned long)((size_t)(this) & 0xFFFFFF),e ? "true" : "false",(!e && conn_ && conn_->is_reuseable()) ? "true" : "false");
 	if(e) return;
 
 	if(conn_->is_reuseable()) {
@@ -433,6 +440,7 @@ booster::shared_ptr<context> context::self()
 
 context::~context()
 {
+	BOOSTER_VERIF_EMIT("\"e\":\"CtxDel\",\"x\":%lu",(unsigned long)((size_t)(this) & 0xFFFFFF));
 }
 
 void context::async_on_peer_reset(booster::callback<void()> const &h)
